@@ -1,6 +1,7 @@
 package main
 
 import (
+	"os"
 	"go/token"
 	"fmt"
 	"go/types"
@@ -1813,8 +1814,79 @@ func (f *frame) sortCall(key string, args []Val, ins ssa.Instruction) Val {
 		inr("q_i"), inr("("+iv+" q_i)"), pm, iv, iv), sBool})
 	u.assume(Term{fmt.Sprintf("(forall ((q_i Int)) (! (=> (not %s) (= (select %s q_i) (select %s q_i))) :pattern ((select %s q_i))))", inr("q_i"), na, old, na), sBool})
 	u.frameWrite(hn, Term{"(ite (< " + lo.S + " " + hi.S + ") " + sliceRef(s).S + " " + sanitize("G.nextRef") + "!init)", sInt}, &lo, &hi, "elements permuted by "+key)
+	asc := f.lessChain(key, di.T, s, true) // on the state before the sort
 	u.setHeap(f.cur, hn, hs, sto(h, sliceRef(s), Term{na, nil}))
+	if asc != nil {
+		// data that is already strictly ascending (Less(q, q+1) for all neighbours, Less transitive as sort.Interface
+		// demands) has exactly one sorted arrangement: the sort leaves it as it is
+		u.assume(Term{fmt.Sprintf("(=> %s (forall ((q_i Int)) (! (= (select %s q_i) (select %s q_i)) :pattern ((select %s q_i)))))", asc.S, na, old, na), sBool})
+	}
+	if srt := f.lessChain(key, di.T, s, false); srt != nil {
+		u.assume(*srt)
+		u.note("%s: ascending order by the contract of the type's Less (Less(j, i) is false for all i < j); strictly ascending input is left unchanged", key)
+	}
 	return nil
+}
+
+// lessChain states an order fact about slice s in the current state through the *contract* of the type's Less
+// method (which has to be verified in the same check): each ensures clause is instantiated for neighbours.
+// strict: Less(q, q+1) is true for all 0 <= q < len-1 (strictly ascending); otherwise: Less(q+1, q) is false
+// (the documented postcondition of sort.Sort / sort.Stable). A Less without contract gives no order facts.
+func (f *frame) lessChain(key string, dt types.Type, s Term, strict bool) *Term {
+	u := f.u
+	if os.Getenv("GOVC_NOSORTED") != "" {
+		return nil
+	}
+	nt, ok := dt.(*types.Named)
+	if !ok || nt.Obj().Pkg() == nil {
+		return nil
+	}
+	less := u.eng.prog.LookupMethod(dt, nt.Obj().Pkg(), "Less")
+	if less == nil || len(less.Params) != 3 {
+		return nil
+	}
+	lk := funcKey(less)
+	ct := u.eng.contracts[lk]
+	if ct == nil || ct.Opaque || len(ct.Ensures) == 0 {
+		return nil
+	}
+	if !ct.Trusted {
+		if u.eng.calledContracts == nil {
+			u.eng.calledContracts = map[string]bool{}
+		}
+		u.eng.calledContracts[lk] = true
+	} else {
+		u.eng.trustedUsed[lk] = true
+	}
+	q := Term{"q_srt", sInt}
+	q2 := Term{"q_srt2", sInt}
+	off := sliceOff(s)
+	var a, b, res Term
+	if strict {
+		a, b, res = q, add(q, Term{"1", sInt}), mkBool(true)
+	} else {
+		// every pair i < j, over absolute indices of the backing array (so that the trigger matches at any offset)
+		a, b, res = sub(q2, off), sub(q, off), mkBool(false)
+	}
+	vars := map[string]Val{less.Params[0].Name(): s, less.Params[1].Name(): a, less.Params[2].Name(): b, "result": res, "result0": res}
+	if rn := less.Signature.Results().At(0).Name(); rn != "" && rn != "_" {
+		vars[rn] = res
+	}
+	env := &SpecEnv{u: u, vars: vars, st: f.cur, old: f.cur, pkg: less.Pkg, bound: map[string]Term{"q_srt": q, "q_srt2": q2}, ctx: "order around " + key + " by " + lk}
+	var parts []Term
+	for _, c := range ct.Ensures {
+		parts = append(parts, env.evalBool(c.X))
+	}
+	var t Term
+	if strict {
+		t = Term{fmt.Sprintf("(forall ((q_srt Int)) (=> (and (<= 0 q_srt) (< (+ q_srt 1) %s)) %s))", sliceLen(s).S, and(parts...).S), sBool}
+	} else {
+		hn, hs, _ := u.elemHeapName(s.T.Go.Underlying().(*types.Slice).Elem())
+		arr := "(select " + u.heap(f.cur, hn, hs).S + " (s-ref " + s.S + "))"
+		t = Term{fmt.Sprintf("(forall ((q_srt Int) (q_srt2 Int)) (! (=> (and (<= %[1]s q_srt) (< q_srt q_srt2) (< q_srt2 (+ %[1]s %[2]s))) %[3]s) :pattern ((select %[4]s q_srt) (select %[4]s q_srt2))))",
+			off.S, sliceLen(s).S, and(parts...).S, arr), sBool}
+	}
+	return &t
 }
 
 // staticType gives the Go type of a location expression of a contract of fn (parameters, field selections,
